@@ -399,7 +399,25 @@ def crc_start_rule(ctx, rid):
         raise AnalysisBroken('%s: only %d part (re-)entries found' % (rid, n))
 
 
+def r9(ctx):
+    ctx.rule('C11.R9', 'the CRC of a symbol string is a function of its symbols: SymbolString::calcCrc and updateCrc write nothing '
+             'but their own locals and the CRC they are handed - no data member (a memoised CRC is stale as soon as one of the '
+             'places that change the symbols forgets to invalidate it; adjustHeader writes the length byte directly)', minimum=2)
+    fb = ctx.fb
+    n = 0
+    for name in ('ebusd::SymbolString::calcCrc', 'ebusd::SymbolString::updateCrc'):
+        fn = fb.fn(name)
+        ctx.touch(fn)
+        n += 1
+        w = sorted(set(fn.key(lhs) for nid, d, rhs, op, lhs in fn.assignments() if lhs is not None and fn.key(lhs).startswith('this.')))
+        early = [r for r in fn.all('ReturnStmt') if fn.nodes[r].get('val') is not None and fn.key(fn.nodes[r]['val']).startswith('this.m_')]
+        ok = not w and not early
+        ctx.ob('C11.R9', fn, fn.body, ok, '%s keeps no state' % name.split('::')[-1],
+               'writes no data member and returns no stored value: %s%s' % (ok, '' if ok else ' (%s)' % ', '.join(w + [fn.key(fn.nodes[r]['val']) for r in early])))
+
+
 def run(ctx):
+    r9(ctx)
     import rules.common as _cm
     ctx.rule('C11.R8', "a value is compared with a constant in the domain of its own type: in the sources of this property every comparison of a variable, member, element or call result with an integer constant (==, !=) has the constant inside the value range of the operand's own integer type before promotion - a symbol held in a signed char never equals 0xA9/0xAA/0xFE, so the escape, SYN or broadcast test behind it is dead for exactly the symbols it exists for", minimum=10)
     _cm.compare_domain_rule(ctx, 'C11.R8', lambda f: f.relfile.startswith(('src/lib/ebus/symbol.',)), 10)
